@@ -9,7 +9,7 @@ HERE = os.path.dirname(os.path.dirname(os.path.abspath(__file__)))
 
 
 def key(r):
-    m = re.match(r'C(\d+)\.R(\d+)(\w*)', r)
+    m = re.match(r'C(\d+)\.[RT](\d+)(\w*)', r)
     return (int(m.group(1)), int(m.group(2)), m.group(3)) if m else (99, 0, r)
 
 
